@@ -45,6 +45,9 @@ class WebsocketSession(object):
 
     def __init__(self, websocket):
         self.websocket = websocket
+        # The state of the connection this session was created for (the
+        # websocket gets a new one with every connect)
+        self._state = websocket.state
         self._address = (websocket.host, websocket.port)
         self._lock = threading.Lock()
         self._sock = None
@@ -85,10 +88,10 @@ class WebsocketSession(object):
             # Check closing before closed (the websocket sets closed
             # before it clears closing), another thread must never see
             # the websocket as neither closing nor closed after a close
-            if self.websocket.is_closing:
+            if self._state.closing:
                 log.debug('WebSocket closing; data not sent')
                 raise errors.WebSocketClosing('data not sent')
-            if self.websocket.is_closed:
+            if self._state.closed:
                 log.debug('WebSocket closed; data not sent')
                 raise errors.WebSocketClosed('data not sent')
             try:
@@ -106,7 +109,7 @@ class WebsocketSession(object):
             if closing:
                 # Set while the write lock is held, so no other thread
                 # can write a frame after the close frame.
-                self.websocket.state.closing = True
+                self._state.closing = True
 
     def send(self, opcode, data):
         """Send a WS Frame."""
